@@ -109,6 +109,19 @@ pub fn gen(rng: &mut ChaCha20Rng, n: usize, thorough: bool) -> Vec<Case> {
     for v in [0u64, 1, 7] { out.push(mk(format!("C10 x-blindzero {}", v), &["ep:explore-Transaction::blind", if v == 0 { "src:finding-F20" } else { "src:fixed" }], true)); }
     for n in [0usize, 1, 255, 256, 257] { out.push(mk(format!("C10 x-surj {}", n), &["ep:explore-Asset::blind", if n > 256 { "src:finding-F22" } else { "src:fixed" }], true)); }
     out.push(mk("C10 x-rp64".into(), &["ep:explore-TxOut::unblind", "src:finding-F23"], true));
+    for r in [0, 1] { out.push(mk(format!("C10 x-remove {}", r), &["ep:explore-Pset::remove_input", if r == 1 { "src:finding-F24" } else { "src:fixed" }], true)); }
+    for pat in ["empty", "null"] { out.push(mk(format!("C10 x-serde-taptree {}", pat), &["ep:explore-serde-TapTree", "src:finding-F25"], true)); }
+    out.push(mk("C10 x-cbor-params a16c6665647065677363726970749bffffffffffffffff".into(), &["ep:explore-serde-dynafed", "src:finding-F26"], true));
+    out.push(mk("C10 x-cbor-params a16c66656470656773637269707483010203".into(), &["ep:explore-serde-dynafed", "src:fixed"], true));
+    // PSET count caps: 10 000 inputs / outputs promised, nothing behind (the reservation happens before the first map is read)
+    for (cin, cout) in [(10_000u64, 0u64), (0, 10_000), (10_000, 10_000), (10_001, 0), (0, 10_001), (0xffff_ffff, 0)] {
+        let mut b = b"pset\xff".to_vec();
+        b.extend([1, 2, 4, 2, 0, 0, 0]); b.extend([1, 4]); b.push(varint(cin).len() as u8); b.extend(varint(cin)); b.extend([1, 5]); b.push(varint(cout).len() as u8); b.extend(varint(cout));
+        b.extend([1, 0xfb, 4, 2, 0, 0, 0, 0]);
+        out.push(mk(format!("C10 x-pset {}", hex(&b)), &["ep:explore-pset-deserialize", "src:alloc-probe"], true));
+        let mut c = b.clone(); c.extend([0xfe, 0x01, 0x09, 0x3d, 0x00, 0x01]);
+        out.push(mk(format!("C10 x-pset {}", hex(&c)), &["ep:explore-pset-deserialize", "src:alloc-probe"], true));
+    }
     {   // F21: an issuance of explicit amount 0, through the wire
         let mut i = TxIn::default(); i.previous_output = OutPoint::new(txid(7), 1); i.asset_issuance.amount = confidential::Value::Explicit(0); i.asset_issuance.inflation_keys = confidential::Value::Explicit(1);
         let tx = Transaction { version: 2, lock_time: LockTime::ZERO, input: vec![i], output: vec![TxOut::new_fee(1, asset(3))] };
